@@ -287,16 +287,35 @@ def sx_not(v):
 # ------------------------------------------------------------------ containers
 
 
+def _any_eq(item, members):
+    """item equals one of members: True / False / SymBool (one merged condition instead of a fork per member)"""
+    conds = []
+    for k in members:
+        r = _eq(k, item)
+        if type(r) is SymBool:
+            conds.append(r.z)
+        elif r is NotImplemented:
+            continue
+        elif r:
+            return True
+    if not conds:
+        return False
+    return SymBool(conds[0] if len(conds) == 1 else z3.Or(*conds))
+
+
 def sx_contains(item, container):
     t = type(container)
-    if t is SymSet or t is SymDict:
+    if t is SymSet:
+        return container._has(item)
+    if t is SymDict:
         return item in container
     if t in (set, frozenset, dict):
         if is_sym(item):
-            for k in container:
-                if _eq(k, item):
-                    return True
-            return False
+            return _any_eq(item, container)
+        return item in container
+    if t in (list, tuple):
+        if is_sym(item) or any(is_sym(k) for k in container):
+            return _any_eq(item, container)
         return item in container
     if t is SymStr:
         return container.__contains__(item)
@@ -324,21 +343,95 @@ def sx_get(obj, *args):
     return obj.get(*args)
 
 
+def _all_merged(results):
+    """conjunction of bool / SymBool results as ONE value (bool when decided, else a single SymBool)"""
+    conds = []
+    for r in results:
+        if type(r) is SymBool:
+            conds.append(r.z)
+        elif not r:
+            return False
+    if not conds:
+        return True
+    return SymBool(conds[0] if len(conds) == 1 else z3.And(*conds))
+
+
+def _hashable_concrete(x):
+    if is_sym(x) or type(x).__module__ == "ipaddress":
+        return False
+    t = type(x)
+    return t in (int, str, bool, float, bytes, type(None)) or (t is tuple and all(_hashable_concrete(i) for i in x))
+
+
 class SymSet:
-    """Set with symbolic members: association list; iteration order is unspecified (all orders explored)."""
+    """Set that may hold symbolic members.  Concrete hashable members live in a dict (O(1) lookups, 65 000 ports are
+    fine), everything else in an association list.  Iteration order is unspecified: every order of the symbolic
+    part is explored (up to MAX_PERM members); all-concrete sets iterate in CPython's own order."""
 
     MAX_PERM = 4
 
     def __init__(self, items=()):
-        self.items = []
-        for i in items:
+        self.conc = {}
+        self.sym = []
+        self._runs = None
+        for i in (items.items if type(items) is SymSet else items):
             self.add(i)
 
+    @property
+    def items(self):
+        return list(self.conc) + self.sym
+
+    def _int_runs(self):
+        """sorted runs [(lo, hi)] of the concrete int members (for membership tests of a symbolic int)"""
+        if self._runs is None:
+            xs = sorted(k for k in self.conc if type(k) is int)
+            runs, i = [], 0
+            while i < len(xs):
+                j = i
+                while j + 1 < len(xs) and xs[j + 1] - xs[j] <= 1:
+                    j += 1
+                runs.append((xs[i], xs[j]))
+                i = j + 1
+            self._runs = runs
+        return self._runs
+
+    def _has(self, x):
+        """x in self: True / False / SymBool"""
+        if _hashable_concrete(x):
+            if x in self.conc:
+                return True
+            return _any_eq(x, self.sym)
+        conds = []
+        if type(x) is SymInt:
+            lo, hi = x.iv
+            for a, b in self._int_runs():
+                if b < lo or a > hi:
+                    continue
+                conds.append(x.z == a if a == b else z3.And(x.z >= a, x.z <= b))
+            others = [k for k in self.conc if type(k) is not int]
+        else:
+            others = list(self.conc)
+        r = _any_eq(x, others + self.sym)
+        if r is True:
+            return True
+        if type(r) is SymBool:
+            conds.append(r.z)
+        if not conds:
+            return False
+        return SymBool(conds[0] if len(conds) == 1 else z3.Or(*conds))
+
     def add(self, x):
-        for i in self.items:
-            if _eq(i, x):
+        if _hashable_concrete(x):
+            if x in self.conc:
                 return
-        self.items.append(x)
+            if self.sym and _any_eq(x, self.sym):
+                return
+            self.conc[x] = None
+            self._runs = None
+            return
+        if self._has(x):                    # one decision, not one per member
+            return
+        self.sym.append(x)
 
     def update(self, *others):
         for xs in others:
@@ -347,32 +440,53 @@ class SymSet:
             for x in (xs.items if type(xs) is SymSet else xs):
                 self.add(x)
 
+    def discard(self, x):
+        if _hashable_concrete(x) and x in self.conc:
+            del self.conc[x]
+            self._runs = None
+            return
+        for k, i in enumerate(self.sym):
+            if _eq(i, x):
+                del self.sym[k]
+                return
+
+    def remove(self, x):
+        n = len(self)
+        self.discard(x)
+        if len(self) == n:
+            raise KeyError(x)
+
     def _order(self):
-        n = len(self.items)
-        if n <= 1 or not any(is_sym(i) for i in self.items):
-            return list(self.items)
-        if n > self.MAX_PERM:
+        if not self.sym:
+            return list(builtins.set(self.conc))        # CPython's own order for concrete members
+        n = len(self.sym)
+        if n + len(self.conc) <= 1:
+            return self.items
+        if n + min(len(self.conc), 1) > self.MAX_PERM or len(self.conc) > 3:
+            if len(self.conc) > 3:
+                raise Unsupported("iteration over a set mixing symbolic members with many concrete ones")
             raise Unsupported("iteration over a symbolic set of more than 4 elements")
-        perms = list(itertools.permutations(range(n)))
+        elems = self.items
+        if len(elems) > self.MAX_PERM:
+            raise Unsupported("iteration over a symbolic set of more than 4 elements")
+        perms = list(itertools.permutations(range(len(elems))))
         ctx = Ctx.cur
         k = ctx.choice(f"setorder#{sum(1 for c in ctx.choices if c.startswith('setorder#'))}", len(perms))
-        return [self.items[j] for j in perms[k]]
+        return [elems[j] for j in perms[k]]
 
     def __iter__(self): return iter(self._order())
-    def __len__(self): return len(self.items)
-    def __bool__(self): return bool(self.items)
+    def __len__(self): return len(self.conc) + len(self.sym)
+    def __bool__(self): return bool(self.conc) or bool(self.sym)
 
     def __contains__(self, x):
-        for i in self.items:
-            if _eq(i, x):
-                return True
-        return False
+        return bool(self._has(x))
 
     def intersection(self, o): return SymSet([i for i in self.items if sx_contains(i, o)])
     def difference(self, o): return SymSet([i for i in self.items if not sx_contains(i, o)])
     def union(self, o): return SymSet([*self.items, *(o.items if type(o) is SymSet else o)])
-    def issubset(self, o): return all(sx_contains(i, o) for i in self.items)
-    def copy(self): return SymSet(self.items)
+    def issubset(self, o): return _all_merged([sx_contains(i, o) for i in self.items])
+    def issuperset(self, o): return _all_merged([self._has(i) for i in (o.items if type(o) is SymSet else o)])
+    def copy(self): return SymSet(self)
     __and__ = intersection
     __sub__ = difference
     __or__ = union
@@ -380,13 +494,22 @@ class SymSet:
     def __eq__(self, o):
         if not isinstance(o, (SymSet, set, frozenset)):
             return False
-        return all(sx_contains(i, o) for i in self.items) and all(i in self for i in o)
+        others = o.items if type(o) is SymSet else list(o)       # order is irrelevant for equality: no order fork
+        if not self.sym and type(o) is SymSet and not o.sym:
+            return self.conc.keys() == o.conc.keys()
+        return _all_merged([sx_contains(i, o) for i in self.items] + [self._has(i) for i in others])
 
     def __ne__(self, o):
-        return not self.__eq__(o)
+        return sx_not(self.__eq__(o))
+
+    def __le__(self, o): return self.issubset(o)
+    def __ge__(self, o): return self.issuperset(o)
 
     def __hash__(self):
         raise Unsupported("hash(SymSet)")
+
+    def __repr__(self):
+        return "SymSet(" + repr(self.items) + ")"
 
 
 class _SetMeta(type):
@@ -394,10 +517,7 @@ class _SetMeta(type):
     def __repr__(cls): return "<class 'set'>"
 
     def __call__(cls, it=()):
-        items = list(it)
-        if not items or any(is_sym(i) or type(i).__module__ == "ipaddress" for i in items):
-            return SymSet(items)
-        return builtins.set(items)
+        return SymSet(it)
 
 
 class sx_set(metaclass=_SetMeta):
@@ -406,7 +526,7 @@ class sx_set(metaclass=_SetMeta):
 
 def sx_sorted(it, *, key=None, reverse=False):
     if type(it) is SymSet:
-        it = list(it.items)     # sorting makes the order irrelevant
+        it = it.items           # sorting makes the order irrelevant
     return builtins.sorted(it, key=key, reverse=reverse)
 
 
